@@ -633,8 +633,10 @@ static void config_cond_clear_node(cond_cache_t * const cond_cache, const data_c
 				config_cond_clear_node(cond_cache, dc_child);
 			}
 		}
-		if (NULL != dc->next) config_cond_clear_node(cond_cache, dc->next);
 	}
+	/* else-branches may hold a cached (skip) result even if this node is
+	 * unset (parent failed before prev was evaluated): always walk chain */
+	if (NULL != dc->next) config_cond_clear_node(cond_cache, dc->next);
 }
 
 /**
